@@ -15,7 +15,7 @@ CHECKS = {'C15': {'level': 'fault_enumeration',
                        'and every byte x {^0x01, ^0x80, ~} of every tensor stream. Nothing is claimed about other '
                        'objects, multi-byte corruptions or corruptions of non-tensor streams',
          'level_note': 'trusted: std::streambuf over the byte range (libstdc++ 12), ASan/UBSan as the out-of-bounds '
-                       'oracle of the truncate/corrupt-asan stages, RLIMIT_AS as the allocation cap of the rel stages',
+                       'oracle of the truncate/corrupt stages, RLIMIT_AS as the allocation cap of the rel stages',
          'rule': 'fault enumeration: evaluations = reader runs (one per object in roundtrip, one per (object, prefix '
                  'length k < len) in truncate*, one per (tensor, byte offset, pattern) in corrupt*); non-trivial = '
                  'prefixes that end strictly inside a nested object (parameter in a vector, feature, tensor, weak '
@@ -24,13 +24,13 @@ CHECKS = {'C15': {'level': 'fault_enumeration',
                  'trips of non-empty / fitted / composite objects',
          'assumptions': ['a reader "reports failure" when it throws any exception or leaves the stream with '
                          'failbit/badbit set; std::bad_alloc/std::length_error count as rejection',
-                         'RLIMIT_AS cannot be combined with ASan (shadow memory): the asan stages run without the cap '
-                         'and rely on allocator_may_return_null=1; the rel stages truncate-rlimit/corrupt cap the '
-                         'address space at 4 GiB',
+                         'RLIMIT_AS cannot be combined with ASan (shadow memory): the asan stages cap the request '
+                         'size of the ASan allocator instead (max_allocation_size_mb=32 compiled into the harness, '
+                         'allocator_may_return_null=1): larger requests return nullptr => std::bad_alloc from the '
+                         'tensor storage; the rel stages truncate-rlimit/corrupt-rlimit cap the address space at 4 GiB '
+                         'with setrlimit',
                          'fitted objects are produced by the library itself (fit on harness datasets); their streams '
-                         'are whatever the writers emit for them',
-                         'corrupt-asan covers the tensors of rank <= 3 with dims 0..2 only (large allocations are '
-                         'slow under ASan); corrupt (rel) covers all tensors of the corpus'],
+                         'are whatever the writers emit for them'],
          'deadline': {'quick': 300, 'thorough': 1500},
          'stages': [{'name': 'roundtrip',
                      'harness': 'c15_serial',
@@ -57,17 +57,16 @@ CHECKS = {'C15': {'level': 'fault_enumeration',
                              'garbage count must end in an exception, not in an OOM kill'},
                     {'name': 'corrupt',
                      'harness': 'c15_serial',
-                     'args': ['--stage', 'corrupt', '--rlimit-mb', '4096', '--models', '0'],
+                     'variant': 'asan',
+                     'args': ['--stage', 'corrupt'],
                      'share': 0.2,
                      'crash_is_violation': True,
-                     'what': 'every tensor stream, every header and payload byte, b^0x01 / b^0x80 / ~b: the reader '
-                             'must report failure'},
-                    {'name': 'corrupt-asan',
+                     'what': 'every tensor stream, every header and payload byte, b^0x01 / b^0x80 / ~b under '
+                             'ASan+UBSan: the reader must report failure; negative and huge dims must not lead to '
+                             'out-of-bounds accesses'},
+                    {'name': 'corrupt-rlimit',
                      'harness': 'c15_serial',
-                     'variant': 'asan',
-                     'args': ['--stage', 'corrupt', '--models', '0', '--maxrank', '3', '--maxdim', '2',
-                              '--maxdim_low_rank', '2'],
+                     'args': ['--stage', 'corrupt', '--rlimit-mb', '4096'],
                      'share': 0.15,
                      'crash_is_violation': True,
-                     'what': 'the same corruptions of the tensors of rank <= 3, dims 0..2 under ASan+UBSan (negative '
-                             'and huge dims must not lead to out-of-bounds accesses)'}]}}
+                     'what': 'the same corruptions in the release build with the address space capped at 4 GiB'}]}}
